@@ -94,6 +94,28 @@ JsonKey4 == [ AV |-> "attackVector", AC |-> "attackComplexity", AT |-> "attackRe
               R |-> "Recovery", V |-> "valueDensity", RE |-> "vulnerabilityResponseEffort",
               U |-> "providerUrgency" ]
 
+\* key names published by the library under verification for v4.0 (its public JSON interface at
+\* the pinned version; they differ from the official schema's keys, which is part of finding F1).
+\* Used only by the C11 faithfulness check to tell which field speaks about which metric.
+AltKey4 == [ AV |-> "attackVector", AC |-> "attackComplexity", AT |-> "attackRequirement",
+             PR |-> "privilegesRequired", UI |-> "userInteraction",
+             VC |-> "vulnerableSystemImpactConfidentiality", VI |-> "vulnerableSystemImpactIntegrity",
+             VA |-> "vulnerableSystemImpactAvailability", SC |-> "subsequentSystemImpactConfidentiality",
+             SI |-> "subsequentSystemImpactIntegrity", SA |-> "subsequentSystemImpactAvailability",
+             E |-> "exploitMaturity", CR |-> "confidentialityRequirements",
+             IR |-> "integrityRequirements", AR |-> "availabilityRequirements",
+             MAV |-> "modifiedAttackVector", MAC |-> "modifiedAttackComplexity",
+             MAT |-> "modifiedAttackRequirement", MPR |-> "modifiedPrivilegesRequired",
+             MUI |-> "modifiedUserInteraction",
+             MVC |-> "modifiedVulnerableSystemImpactConfidentiality",
+             MVI |-> "modifiedVulnerableSystemImpactIntegrity",
+             MVA |-> "modifiedVulnerableSystemImpactAvailability",
+             MSC |-> "modifiedSubsequentSystemImpactConfidentiality",
+             MSI |-> "modifiedSubsequentSystemImpactIntegrity",
+             MSA |-> "modifiedSubsequentSystemImpactAvailability", S |-> "safety", AU |-> "automatable",
+             R |-> "recovery", V |-> "valueDensity", RE |-> "vulnerabilityResponseEffort",
+             U |-> "providerUrgency" ]
+
 \* enum names of cvss-v4.0.json
 AvName4 == [N |-> "NETWORK", A |-> "ADJACENT", L |-> "LOCAL", P |-> "PHYSICAL", X |-> "NOT_DEFINED"]
 AcName4 == [L |-> "LOW", H |-> "HIGH", X |-> "NOT_DEFINED"]
